@@ -7,16 +7,16 @@ use crate::core::*;
 use minijinja::value::Value;
 use minijinja::{Environment, ErrorKind, State};
 use serde_json::json;
-use std::collections::{BTreeMap, BTreeSet, HashMap, VecDeque};
+use std::collections::{BTreeMap, BTreeSet, HashMap};
 
 const NAMES: [&str; 2] = ["a", "b"];
 
 /// template sources; `b` only ever gets leaf sources (0..=3) so that dependencies are one level deep
 const SOURCES: [&str; 7] = [
-    "A1",                                                // 0 ok
+    "A1{% set ns = namespace() %}{% set ns.k = 1 %}",    // 0 ok (with a namespace attribute assignment)
     "[{{ g }}|{{ 2|f }}|{{ 3 is t }}]",                  // 1 uses global g, filter f, test t
     "{% if %}",                                          // 2 does not compile
-    "x{{ 1 // 0 }}",                                     // 3 fails at run time
+    "x{% autoescape 'bogus' %}{% endautoescape %}",      // 3 fails at run time (in an instruction without a span of its own)
     "<{% include 'b' %}>",                               // 4 includes b
     "{% extends 'b' %}{% block x %}c{% endblock %}",     // 5 extends b
     "({{ render_other('b') }})",                         // 6 nested render of b on the same thread
@@ -143,8 +143,19 @@ fn render_other(state: &State, name: &str) -> Result<String, minijinja::Error> {
     state.env().get_template(name)?.render(())
 }
 
+/// Runs `f` on a fresh OS thread: the engine keeps per-thread scratch state (compiler pools, value
+/// handles, conversion flag), so "freshly built" and "this history from the start" both mean a thread
+/// nothing was compiled or rendered on before.
+fn on_fresh_thread<T: Send>(f: impl FnOnce() -> T + Send) -> T {
+    std::thread::scope(|s| s.spawn(f).join()).unwrap_or_else(|_| {
+        eprintln!("machinery error: helper thread died");
+        std::process::exit(2)
+    })
+}
+
 fn base_env() -> Environment<'static> {
     let mut env = Environment::new();
+    env.set_debug(true);
     env.add_function("render_other", render_other);
     env
 }
@@ -218,10 +229,11 @@ fn observe(env: &Environment<'static>) -> Result<Obs, String> {
     for name in ["a", "b", "zz"] {
         let once = |e: &Environment<'static>| -> String {
             match e.get_template(name) {
-                Err(err) => format!("get:{:?}", err.kind()),
+                Err(err) => format!("get:{:?}:{:?}:{:?}", err.kind(), err.line(), err.range()),
                 Ok(t) => match t.render(()) {
                     Ok(s) => format!("ok:{}", s),
-                    Err(err) => format!("render:{:?}", err.kind()),
+                    // the whole report of a failing render is part of what a render gives
+                    Err(err) => format!("render:{:?}:{:?}:{:?}:{:?}:{:?}", err.kind(), err.name(), err.line(), err.range(), err.detail()),
                 },
             }
         };
@@ -285,7 +297,7 @@ fn op_class(op: Op) -> &'static str {
 }
 
 /// checks one history step: returns failures
-fn check_step(history: &[Op], env: &mut Environment<'static>, model: &mut Model, op: Op, acc: &Acc) -> bool {
+fn check_step(history: &[Op], env: &mut Environment<'static>, model: &mut Model, op: Op, acc: &Acc, fresh_thread: bool) -> bool {
     let hist_str = || {
         let mut h: Vec<String> = history.iter().map(|o| format!("{:?}", o)).collect();
         h.push(format!("{:?}", op));
@@ -338,8 +350,7 @@ fn check_step(history: &[Op], env: &mut Environment<'static>, model: &mut Model,
         acc.fail(mk("failed_add_changes_environment", format!("before {:?} after {:?}", before, after)));
         return false;
     }
-    let fresh = fresh_from(model);
-    let expect = observe(&fresh).unwrap_or_default();
+    let expect = if fresh_thread { on_fresh_thread(|| observe(&fresh_from(model)).unwrap_or_default()) } else { observe(&fresh_from(model)).unwrap_or_default() };
     if after != expect {
         acc.fail(mk("differs_from_fresh_environment", format!("environment after the history renders {:?} but a fresh environment with the same contents ({:?}) renders {:?}", after, model, expect)));
         return false;
@@ -363,7 +374,7 @@ pub fn main(args: Args) -> i32 {
         let mut model = Model::default();
         let mut ok = true;
         for i in 0..hist.len() {
-            ok &= check_step(&hist[..i], &mut env, &mut model, hist[i], &acc);
+            ok &= check_step(&hist[..i], &mut env, &mut model, hist[i], &acc, true);
             println!("after {:?}: {:?}", hist[i], observe(&env));
         }
         let fs = acc.take_failures();
@@ -396,21 +407,25 @@ pub fn main(args: Args) -> i32 {
                 hist.push(ops[(k % no) as usize]);
                 k /= no;
             }
-            let mut env = base_env();
-            let mut model = Model::default();
-            for i in 0..depth {
-                // only the deepest step is new for this index unless the suffix is all-zero digits
-                if i + 1 < depth {
-                    let _ = apply_real(&mut env, hist[i]);
-                    model.apply(hist[i]);
-                    continue;
+            let (ok, model) = {
+                let mut env = base_env();
+                let mut model = Model::default();
+                let mut ok = false;
+                for i in 0..depth {
+                    if i + 1 < depth {
+                        let _ = apply_real(&mut env, hist[i]);
+                        model.apply(hist[i]);
+                        continue;
+                    }
+                    ok = check_step(&hist[..i], &mut env, &mut model, hist[i], &acc, false);
                 }
-                l.evals += 1;
-                if check_step(&hist[..i], &mut env, &mut model, hist[i], &acc) {
-                    l.outcome("step ok");
-                }
-                local_states.insert(model.clone());
+                (ok, model)
+            };
+            l.evals += 1;
+            if ok {
+                l.outcome("step ok");
             }
+            local_states.insert(model);
             l.nontrivial.insert(fnv(format!("{:?}", hist).as_bytes()));
         }
         transitions.fetch_add(local_states.len() as u64, std::sync::atomic::Ordering::Relaxed);
@@ -427,17 +442,21 @@ pub fn main(args: Args) -> i32 {
                     hist.push(ops[(k % no) as usize]);
                     k /= no;
                 }
-                let mut env = base_env();
-                let mut model = Model::default();
-                for i in 0..d {
-                    if i + 1 < d {
-                        let _ = apply_real(&mut env, hist[i]);
-                        model.apply(hist[i]);
-                    } else {
-                        l.evals += 1;
-                        check_step(&hist[..i], &mut env, &mut model, hist[i], &acc);
+                l.evals += 1;
+                // every history of this phase runs from its first operation on an OS thread of its
+                // own, and its reference environment is built on another fresh thread
+                on_fresh_thread(|| {
+                    let mut env = base_env();
+                    let mut model = Model::default();
+                    for i in 0..d {
+                        if i + 1 < d {
+                            let _ = apply_real(&mut env, hist[i]);
+                            model.apply(hist[i]);
+                        } else {
+                            check_step(&hist[..i], &mut env, &mut model, hist[i], &acc, true);
+                        }
                     }
-                }
+                });
             }
         });
     }
@@ -445,54 +464,68 @@ pub fn main(args: Args) -> i32 {
     // phase 2: BFS over model states to depth D with deduplication on the model; at every merge the
     // environment reached by the new history is compared with the stored representative
     let max_depth = args.tier.pick(6usize, 8usize);
-    let mut seen: HashMap<Model, Vec<Op>> = HashMap::new();
-    let mut frontier: VecDeque<Vec<Op>> = VecDeque::new();
-    seen.insert(Model::default(), vec![]);
-    frontier.push_back(vec![]);
+    // level-synchronous: the transitions of one level run in parallel (each on a fresh thread), the
+    // merge into the set of seen states is sequential and in a fixed order
+    let mut seen: HashMap<Model, (Vec<Op>, Result<Obs, String>)> = HashMap::new();
+    seen.insert(Model::default(), (vec![], observe(&base_env())));
+    let mut level: Vec<Vec<Op>> = vec![vec![]];
     let mut bfs_transitions = 0u64;
     let mut merges_checked = 0u64;
-    let mut level_sizes = vec![];
-    while let Some(hist) = frontier.pop_front() {
-        if hist.len() >= max_depth {
-            continue;
-        }
-        if acc.n_failures() > 50 {
+    let mut level_sizes = vec![1u64];
+    for _d in 0..max_depth {
+        if level.is_empty() || acc.n_failures() > 50 {
             break;
         }
-        for &op in &ops {
-            let (mut env, mut model) = build(&hist);
-            bfs_transitions += 1;
-            acc.eval(1);
-            if !check_step(&hist, &mut env, &mut model, op, &acc) {
-                continue;
+        let n_items = (level.len() * ops.len()) as u64;
+        let results: std::sync::Mutex<Vec<(u64, Model, Result<Obs, String>)>> = std::sync::Mutex::new(vec![]);
+        par_chunks(n_items, 32, &acc, |r, l| {
+            let mut local = vec![];
+            for idx in r {
+                let hist = &level[(idx / ops.len() as u64) as usize];
+                let op = ops[(idx % ops.len() as u64) as usize];
+                l.evals += 1;
+                let (ok, model, obs_new) = {
+                    let (mut env, mut model) = build(hist);
+                    let ok = check_step(hist, &mut env, &mut model, op, &acc, false);
+                    let o = observe(&env);
+                    (ok, model, o)
+                };
+                if ok {
+                    local.push((idx, model, obs_new));
+                }
             }
+            results.lock().unwrap().extend(local);
+        });
+        bfs_transitions += n_items;
+        let mut results = results.into_inner().unwrap();
+        results.sort_by_key(|r| r.0);
+        let mut next: Vec<Vec<Op>> = vec![];
+        for (idx, model, obs_new) in results {
+            let hist = &level[(idx / ops.len() as u64) as usize];
+            let op = ops[(idx % ops.len() as u64) as usize];
             let mut new_hist = hist.clone();
             new_hist.push(op);
             match seen.get(&model) {
-                Some(rep) => {
+                Some((rep, obs_rep)) => {
                     // differential merge check: same contents reached by two histories
-                    let (rep_env, _) = build(rep);
                     merges_checked += 1;
-                    let (a, b) = (observe(&env), observe(&rep_env));
-                    if a != b {
+                    if obs_new != *obs_rep {
                         acc.fail(Failure {
                             key: format!("history merge_differs last_op={}", op_class(op)),
                             case: format!("{:?} vs {:?}", new_hist, rep),
-                            detail: format!("two histories reach the same contents {:?} but observe {:?} vs {:?}", model, a, b),
+                            detail: format!("two histories reach the same contents {:?} but observe {:?} vs {:?}", model, obs_new, obs_rep),
                             replay: json!({"history": new_hist.iter().map(|o| format!("{:?}", o)).collect::<Vec<_>>()}),
                         });
                     }
                 }
                 None => {
-                    seen.insert(model, new_hist.clone());
-                    while level_sizes.len() <= new_hist.len() {
-                        level_sizes.push(0u64);
-                    }
-                    level_sizes[new_hist.len()] += 1;
-                    frontier.push_back(new_hist);
+                    seen.insert(model, (new_hist.clone(), obs_new));
+                    next.push(new_hist);
                 }
             }
         }
+        level_sizes.push(next.len() as u64);
+        level = next;
     }
     let mut extra = serde_json::Map::new();
     extra.insert("states".into(), json!(seen.len() as u64));
@@ -513,7 +546,7 @@ pub fn main(args: Args) -> i32 {
             level: "model_checking",
             tier: args.tier,
             seed: args.seed,
-            rule: format!("alphabet of {} operations over names {{a,b}}: add_template (borrowed) and add_template_owned with 7 sources (plain, using global+filter+test, not compiling, failing at run time, including b, extending b, rendering b from a function on the same thread; b only gets the 4 leaf sources), remove_template, clear_templates, set_loader (two loaders serving different sources), add/remove filter, test, global (two values), clone (continue on the clone), render a/b, get a missing template. Phase 1: the complete history tree to depth {} without pruning ({} histories). Phase 2: breadth-first search over model states (borrowed map, owned+memoised map with the source seen at first request, loader, registries) to depth {} with deduplication on the model state; at every merge the environment reached by the new history is compared with the one reached by the stored representative. Oracle at every step of every history: observations (get_template+render of a, b and a missing name, each twice, on a clone) equal those of a fresh environment built from the model's contents; an add that fails to compile leaves all observations unchanged; same render twice gives the same result. states = distinct model states; every transition executes the real API, so every history is a trace validated against the implementation", ops.len(), depth, total, max_depth),
+            rule: format!("alphabet of {} operations over names {{a,b}}: add_template (borrowed) and add_template_owned with 7 sources (plain, using global+filter+test, not compiling, failing at run time, including b, extending b, rendering b from a function on the same thread; b only gets the 4 leaf sources), remove_template, clear_templates, set_loader (two loaders serving different sources), add/remove filter, test, global (two values), clone (continue on the clone), render a/b, get a missing template. Phase 1: the complete history tree to depth {} without pruning ({} histories). Phase 2: breadth-first search over model states (borrowed map, owned+memoised map with the source seen at first request, loader, registries) to depth {} with deduplication on the model state; at every merge the environment reached by the new history is compared with the one reached by the stored representative. The histories shorter than the tree depth run from their first operation on an OS thread of their own, with the reference environment built on another fresh thread (the engine keeps per-thread scratch state). Oracle at every step of every history: observations (get_template+render of a, b and a missing name, each twice, on a clone; for failing renders the whole report: kind, template, line, range, detail) equal those of a fresh environment built from the model's contents; an add that fails to compile leaves all observations unchanged; same render twice gives the same result. states = distinct model states; every transition executes the real API, so every history is a trace validated against the implementation", ops.len(), depth, total, max_depth),
             exhaustive: true,
             bound: json!({"tree_depth": depth, "bfs_depth": max_depth}),
             assumptions: vec![
